@@ -349,7 +349,36 @@ fn current_key(rc: &Value) -> Option<&Value> {
 fn json_str(v: &Value) -> String { match v { Value::String(s) => s.clone(), other => other.to_string() } }
 
 type Snapshot = BTreeMap<String, Option<Value>>;
-fn snapshot(sys: &Sys) -> Snapshot { CAS.iter().map(|h| (h.to_string(), ca_json(sys, h))).collect() }
+fn snapshot(sys: &Sys) -> Snapshot {
+    CAS.iter().map(|h| (h.to_string(), sys.ca(h).ok().map(|c| {
+        let mut v = serde_json::to_value(&*c).unwrap();
+        // the API's configured views, next to the aggregate's own json
+        v["_aspa_defs"] = serde_json::to_value(c.aspas_definitions_show()).unwrap();
+        v["_bgpsec_defs"] = serde_json::to_value(c.bgpsec_definitions_show()).unwrap();
+        v
+    }))).collect()
+}
+
+/// ASPA objects of a class json: customer -> sorted providers
+fn aspa_state(rc: &Value) -> BTreeMap<u32, Vec<u32>> {
+    let mut m = BTreeMap::new();
+    if let Some(Value::Object(o)) = rc.get("aspas") { for a in o.values() { let (c, ps) = aspa_def(&a["definition"]); m.insert(c, ps); } }
+    m
+}
+fn aspa_def(d: &Value) -> (u32, Vec<u32>) {
+    let mut ps: Vec<u32> = d["providers"].as_array().map(|a| a.iter().map(asn_of_json).collect()).unwrap_or_default(); ps.sort();
+    (asn_of_json(&d["customer"]), ps)
+}
+/// "ROUTER-<asn hex>-<key>" of a BgpSecCertInfo json
+fn bgp_name(info: &Value) -> String {
+    let bytes = base64::engine::general_purpose::STANDARD.decode(info["base64"].as_str().unwrap_or("")).unwrap_or_default();
+    let key = Cert::decode(Bytes::from(bytes)).map(|c| ki(&c)).unwrap_or_default();
+    format!("ROUTER-{:08X}-{}", asn_of_json(&info["asn"]), key.to_uppercase())
+}
+fn bgp_state(rc: &Value) -> BTreeSet<String> {
+    match rc.get("bgpsec_certificates") { Some(Value::Object(o)) => o.keys().map(|k| k.to_uppercase()).collect(), _ => BTreeSet::new() }
+}
+fn bgp_asn(name: &str) -> u32 { name.split('-').nth(1).and_then(|h| u32::from_str_radix(h, 16).ok()).unwrap_or(0) }
 
 /// Does the parent currently issue, for the class's current key, a certificate with the very resources of the
 /// certificate the class holds (serial numbers may differ: an unsuspended child's certificate is re-issued and the
@@ -386,7 +415,7 @@ fn roa_state(rc: &Value) -> RoaState {
 }
 fn aggr_asn(k: &str) -> u64 { k.trim_start_matches("AS").split('-').next().unwrap_or("0").parse().unwrap_or(0) }
 
-struct Deriv { terms: Vec<String>, descs: Vec<Value> }
+struct Deriv { terms: Vec<String>, descs: Vec<Value>, aterms: Vec<String>, bterms: Vec<String>, adescs: Vec<Value> }
 
 /// Follows the stored commands of one CA between two snapshots and emits one dcase per invocation of
 /// create_updates / key-roll renewal. Returns false if the tracked ROA state does not end in the observed one.
@@ -406,6 +435,13 @@ fn derive_cases(sys: &Sys, it: &mut It, h: &str, pre: &Value, post: &Value, thre
                 cur.map(|c| json_resources(&c["incoming_cert"]["resources"])).unwrap_or_default(), new));
         }
     }
+    // per class: ASPA objects (customer -> providers) and router certificates (names)
+    let mut ab: BTreeMap<String, (BTreeMap<u32, Vec<u32>>, BTreeSet<String>)> = BTreeMap::new();
+    if let Some(Value::Object(m)) = pre.get("resources") { for (rcn, rc) in m { ab.insert(rcn.clone(), (aspa_state(rc), bgp_state(rc))); } }
+    let defs_of = |v: &Value| -> (BTreeMap<u32, Vec<u32>>, BTreeSet<String>) {
+        (v["_aspa_defs"].as_array().map(|a| a.iter().map(aspa_def).collect()).unwrap_or_default(),
+         v["_bgpsec_defs"].as_array().map(|a| a.iter().map(|d| format!("ROUTER-{:08X}-{}", asn_of_json(&d["asn"]), json_str(&d["key_identifier"]).to_uppercase())).collect()).unwrap_or_default())
+    };
     for v in v0..v1 {
         let Some(sc) = stored_command(sys, h, v) else { continue };
         let ty = sc["details"]["type"].as_str().unwrap_or("?").to_string();
@@ -424,8 +460,8 @@ fn derive_cases(sys: &Sys, it: &mut It, h: &str, pre: &Value, post: &Value, thre
         for e in &evs {
             let rcn = json_str(&e["resource_class_name"]);
             match e["type"].as_str().unwrap_or("") {
-                "resource_class_added" => { classes.insert(rcn, (RoaState::default(), String::new(), ResourceSet::default(), None)); }
-                "resource_class_removed" => { classes.remove(&rcn); }
+                "resource_class_added" => { ab.insert(rcn.clone(), Default::default()); classes.insert(rcn, (RoaState::default(), String::new(), ResourceSet::default(), None)); }
+                "resource_class_removed" => { ab.remove(&rcn); classes.remove(&rcn); }
                 "key_pending_to_active" => {
                     let res = json_resources(&e["current_key"]["incoming_cert"]["resources"]);
                     if let Some(c) = classes.get_mut(&rcn) { c.1 = e["current_key"]["key_id"].as_str().unwrap_or("?").to_string(); c.2 = res.clone(); }
@@ -450,6 +486,66 @@ fn derive_cases(sys: &Sys, it: &mut It, h: &str, pre: &Value, post: &Value, thre
                         if let Some((nk, nres)) = c.3.take() { c.1 = nk; c.2 = nres.clone(); derive.push((rcn, nres, true)); }
                     }
                 }
+                _ => {}
+            }
+        }
+        // ASPA objects and router certificates: every certificate-driven derivation of a class, and every class on a
+        // change of the definitions (certauth.rs append_updated_aspa_objects / process_bgpsec_definitions_update)
+        let is_aspa_cmd = ty.starts_with("aspa");
+        let is_bgp_cmd = ty.starts_with("bgp");
+        let (adefs, bdefs) = defs_of(if is_aspa_cmd || is_bgp_cmd { post } else { pre });
+        let mut ab_derive: Vec<(String, ResourceSet, bool, bool, bool)> = derive.iter().map(|(r, c, n)| (r.clone(), c.clone(), *n, true, true)).collect();
+        if is_aspa_cmd || is_bgp_cmd { for (rcn, c) in &classes { if !c.1.is_empty() { ab_derive.push((rcn.clone(), c.2.clone(), false, is_aspa_cmd, is_bgp_cmd)); } } }
+        let mut ab_derived: BTreeSet<(String, bool)> = BTreeSet::new();    // (class, is_aspa) handled as a derivation
+        for (rcn, cert, renew, do_aspa, do_bgp) in ab_derive {
+            let Some(st) = ab.get_mut(&rcn) else { continue };
+            let cm = full_mask(&cert);
+            if do_aspa {
+                ab_derived.insert((rcn.clone(), true));
+                let pre_a = st.0.clone();
+                let mut upd: Vec<(u32, Vec<u32>)> = vec![]; let mut rem: Vec<u32> = vec![];
+                for e in &evs { if e["type"] == "aspa_objects_updated" && json_str(&e["resource_class_name"]) == rcn {
+                    if let Some(Value::Array(a)) = e["updates"].get("updated") { upd.extend(a.iter().map(|i| aspa_def(&i["definition"]))); }
+                    if let Some(Value::Array(a)) = e["updates"].get("removed") { rem.extend(a.iter().map(asn_of_json)); } } }
+                for (c, ps) in &upd { st.0.insert(*c, ps.clone()); }
+                for c in &rem { st.0.remove(c); }
+                let custs: BTreeSet<u32> = adefs.keys().chain(pre_a.keys()).chain(st.0.keys()).copied().collect();
+                let al = |m: &mut dyn Iterator<Item = (&u32, &Vec<u32>)>| coq_list(&m.map(|(c, ps)| format!("({}, {})", c, coq_list(&ps.iter().map(|p| p.to_string()).collect::<Vec<_>>()))).collect::<Vec<_>>());
+                out.aterms.push(format!("(mkA {} {} {} {} {} {} {} {})", cm,
+                    coq_list(&custs.iter().map(|c| format!("({}, {})", c, touch_mask(&asn_resources(*c)))).collect::<Vec<_>>()),
+                    al(&mut adefs.iter()), al(&mut pre_a.iter()), renew, al(&mut upd.iter().map(|(c, p)| (c, p))),
+                    coq_list(&rem.iter().map(|c| c.to_string()).collect::<Vec<_>>()), al(&mut st.0.iter())));
+                out.adescs.push(json!({"kind": "aspa", "ca": h, "class": rcn, "command": ty, "renew": renew, "op": op, "cert_mask": cm, "definitions": adefs.len(),
+                    "pre": pre_a.len(), "post": st.0.len(), "event": {"updated": upd, "removed": rem}}));
+            }
+            if do_bgp {
+                ab_derived.insert((rcn.clone(), false));
+                let pre_b = st.1.clone();
+                let mut upd: Vec<String> = vec![]; let mut rem: Vec<String> = vec![];
+                for e in &evs { if matches!(e["type"].as_str().unwrap_or(""), "bgp_sec_certificates_updated" | "bgpsec_certificates_updated") && json_str(&e["resource_class_name"]) == rcn {
+                    if let Some(Value::Array(a)) = e["updates"].get("updated") { upd.extend(a.iter().map(bgp_name)); }
+                    if let Some(Value::Array(a)) = e["updates"].get("removed") { rem.extend(a.iter().map(|k| json_str(k).to_uppercase())); } } }
+                for k in &upd { st.1.insert(k.clone()); }
+                for k in &rem { st.1.remove(k); }
+                let keys: BTreeSet<String> = bdefs.iter().chain(pre_b.iter()).chain(st.1.iter()).cloned().collect();
+                let bl = |it: &mut It, m: &mut dyn Iterator<Item = &String>| coq_list(&m.map(|k| it.rkey(k).to_string()).collect::<Vec<_>>());
+                out.bterms.push(format!("(mkB {} {} {} {} {} {} {} {})", cm,
+                    coq_list(&keys.iter().map(|k| format!("({}, {})", it.rkey(k), touch_mask(&asn_resources(bgp_asn(k))))).collect::<Vec<_>>()),
+                    bl(it, &mut bdefs.iter()), bl(it, &mut pre_b.iter()), renew, bl(it, &mut upd.iter()), bl(it, &mut rem.iter()), bl(it, &mut st.1.iter())));
+                out.adescs.push(json!({"kind": "router", "ca": h, "class": rcn, "command": ty, "renew": renew, "op": op, "cert_mask": cm, "definitions": bdefs.len(),
+                    "pre": pre_b.len(), "post": st.1.len(), "event": {"updated": upd, "removed": rem}}));
+            }
+        }
+        // ASPA / router certificate events of commands that do not derive (renewal runs): follow them
+        for e in &evs {
+            let rcn = json_str(&e["resource_class_name"]);
+            match e["type"].as_str().unwrap_or("") {
+                "aspa_objects_updated" if !ab_derived.contains(&(rcn.clone(), true)) => { if let Some(st) = ab.get_mut(&rcn) {
+                    if let Some(Value::Array(a)) = e["updates"].get("updated") { for i in a { let (c, ps) = aspa_def(&i["definition"]); st.0.insert(c, ps); } }
+                    if let Some(Value::Array(a)) = e["updates"].get("removed") { for c in a { st.0.remove(&asn_of_json(c)); } } } }
+                "bgp_sec_certificates_updated" | "bgpsec_certificates_updated" if !ab_derived.contains(&(rcn.clone(), false)) => { if let Some(st) = ab.get_mut(&rcn) {
+                    if let Some(Value::Array(a)) = e["updates"].get("updated") { for i in a { st.1.insert(bgp_name(i)); } }
+                    if let Some(Value::Array(a)) = e["updates"].get("removed") { for k in a { st.1.remove(&json_str(k).to_uppercase()); } } } }
                 _ => {}
             }
         }
@@ -509,7 +605,10 @@ fn derive_cases(sys: &Sys, it: &mut It, h: &str, pre: &Value, post: &Value, thre
     // the tracked state must be the observed one
     let mut ok = true;
     if let Some(Value::Object(m)) = post.get("resources") {
-        for (rcn, rc) in m { if classes.get(rcn).map(|c| c.0 != roa_state(rc)).unwrap_or(true) { ok = false; } }
+        for (rcn, rc) in m {
+            if classes.get(rcn).map(|c| c.0 != roa_state(rc)).unwrap_or(true) { ok = false; }
+            if ab.get(rcn).map(|st| st.0 != aspa_state(rc) || st.1 != bgp_state(rc)).unwrap_or(true) { ok = false; }
+        }
     }
     ok
 }
@@ -671,12 +770,15 @@ impl Hist<'_> {
         let rrdp_t = match &rrdp { Some(v) => coq_list(&v.iter().map(|(u, h)| format!("({}, {})", it.uri_t(u), it.hash(h))).collect::<Vec<_>>()), None => "[((0, 0), 0)]".to_string() };
         let deriv_terms = std::mem::take(&mut self.deriv.terms);
         let deriv_descs = std::mem::take(&mut self.deriv.descs);
-        let term = format!("mkCase ({})%Z {} 10 {}\n  {} {} {}\n  {} {} {}\n  {} {} {}\n  {}\n  {}\n  {}",
+        let aterms = std::mem::take(&mut self.deriv.aterms);
+        let bterms = std::mem::take(&mut self.deriv.bterms);
+        let adescs = std::mem::take(&mut self.deriv.adescs);
+        let term = format!("mkCase ({})%Z {} 10 {}\n  {} {} {}\n  {} {} {}\n  {} {} {}\n  {}\n  {}\n  {}\n  {}\n  {}",
             now.timestamp(), ta_term, coq_list(&repo_terms),
             uris_t(it, &mut w.acc.iter()), uris_t(it, &mut w.rej.keys()), uris_t(it, &mut w.missing.iter()),
             vrp_t(it, &w.vrps), aspa_t(&w.aspas), rkey_t(it, &rkeys_ref),
             vrp_t(it, &exp_vrps), aspa_t(&exp_aspas), rkey_t(it, &exp_rkeys),
-            api_t, rrdp_t, coq_list(&deriv_terms));
+            api_t, rrdp_t, coq_list(&deriv_terms), coq_list(&aterms), coq_list(&bterms));
         // what is wrong, from the reference side (for the record's class)
         let listed_or_mft: BTreeSet<&String> = w.acc.iter().chain(w.rej.keys()).collect();
         let visited_dirs: BTreeSet<String> = w.acc.iter().filter(|u| u.ends_with(".mft")).map(|u| split_uri(u).0.to_string()).collect();
@@ -719,6 +821,8 @@ impl Hist<'_> {
         *o.connected_hist.entry(format!("{connected} connected classes")).or_default() += 1;
         *o.mode_hist.entry(format!("classes with aggregate ROAs: {aggregating_classes}, with simple ROAs: {simple_classes}")).or_default() += 1;
         *o.failure_hist.entry(failure.clone()).or_default() += 1;
+        for d in &adescs { *o.derive_hist.entry(format!("{}: {}{}: {}->{}{}", d["kind"].as_str().unwrap_or("?"), d["command"].as_str().unwrap_or("?"), if d["renew"] == true { "(renew)" } else { "" },
+            d["pre"], d["post"], if d["event"]["removed"].as_array().map(|a| !a.is_empty()).unwrap_or(false) { " (removal)" } else { "" })).or_default() += 1; }
         for d in &deriv_descs { *o.derive_hist.entry(format!("{}{}: {}->{}", d["command"].as_str().unwrap_or("?"), if d["renew"] == true { "(renew)" } else { "" },
             if d["pre"]["aggregate"].as_u64().unwrap_or(0) > 0 { "aggregate" } else { "simple" }, if d["post"]["aggregate"].as_u64().unwrap_or(0) > 0 { "aggregate" } else if d["post"]["simple"].as_u64().unwrap_or(0) > 0 { "simple" } else { "empty" })).or_default() += 1; }
         let rec = json!({"index": o.w.total, "history": self.hist, "at": label, "thresholds": {"deaggregate": self.thresholds.0, "aggregate": self.thresholds.1},
@@ -727,7 +831,7 @@ impl Hist<'_> {
             "reference": {"accepted": w.acc.len(), "rejected": w.rej, "missing": w.missing, "unlisted": unlisted, "vrps": w.vrps.len(), "aspas": w.aspas.len(), "router_keys": w.rkeys.len()},
             "expected": {"vrps": exp_vrps.len(), "aspas": exp_aspas.len(), "router_keys": exp_rkeys.len()},
             "vrps_missing": vr_missing, "vrps_extra": vr_extra, "api_objects": api.len(), "api_object_not_in_repo": api_missing,
-            "rrdp_snapshot_files": rrdp.as_ref().map(|v| v.len()), "derivation_steps": deriv_descs,
+            "rrdp_snapshot_files": rrdp.as_ref().map(|v| v.len()), "derivation_steps": deriv_descs, "aspa_router_derivation_steps": adescs,
             "armed_f04c": self.armed.iter().map(|(a, b)| format!("{a}/{b}")).collect::<Vec<_>>()});
         use std::io::Write;
         writeln!(o.jsonl, "{rec}").unwrap();
@@ -798,7 +902,7 @@ fn run_history(args: &Args, hist: u64, seed: u64, n_ops: u64, every: u64, out: &
     let sys = Sys::open(opts);
     sys.bootstrap().expect("bootstrap");
     let csrs = make_router_csrs(3);
-    let mut h = Hist { sys: &sys, it: It::default(), hist, thresholds, deriv: Deriv { terms: vec![], descs: vec![] }, armed: BTreeSet::new(), out, ops_since: vec![] };
+    let mut h = Hist { sys: &sys, it: It::default(), hist, thresholds, deriv: Deriv { terms: vec![], descs: vec![], aterms: vec![], bterms: vec![], adescs: vec![] }, armed: BTreeSet::new(), out, ops_since: vec![] };
     for (i, step) in setup_steps().iter().enumerate() {
         let r = h.observe(&json!({"op": "setup", "step": i}), |s| step(s));
         if let Err(e) = r { eprintln!("history {hist}: setup step {i} failed: {e}"); }
@@ -826,38 +930,57 @@ fn run_history(args: &Args, hist: u64, seed: u64, n_ops: u64, every: u64, out: &
         h.quiesce();
         h.check(&json!({"point": "after scripted F04c history"}));
     }
-    if hist % 3 != 2 {
-        // directed prelude: many ROAs of one origin AS in CA b (atoms 0-3), crossing both thresholds both ways, then a
-        // shrink and a regrow of b's certificate while its ROAs are aggregated
+    {
+        // directed prelude in CA b (atoms 0-3). (a) Many ROAs of one origin AS, crossing both aggregation thresholds both
+        // ways. (b) An ASPA whose customer is AS64514, a router key for AS64514 and ROAs in 10.2/16 and 10.3/16 (atoms 2, 3);
+        // then b's entitlement loses exactly atoms 2 and 3 while the class keeps atoms 0 and 1, and later gets them back:
+        // after the shrink nothing of atoms 2, 3 may stay published, after the regrow everything configured must be back.
         let mk = |i: u64| format!("10.{}.{}.0/24 => 64512", i % 4, 8 * i);
         let first: Vec<String> = (0..7).map(mk).collect();
         let more: Vec<String> = (7..12).map(mk).collect();
-        let script: Vec<(&str, Vec<String>, Vec<String>, Option<u32>)> = vec![
-            ("prelude_add", first.clone(), vec![], None),                                   // 7 > 5 (and > 2): start aggregating
-            ("prelude_remove", vec![], first[1..].to_vec(), None),                          // 1 left: stop aggregating under 3/5; stays aggregated under 1/2
-            ("prelude_add", more.clone(), vec![], None),                                    // 6: aggregate again
-            ("prelude_shrink", vec![], vec![], Some(0x03)),                                 // b loses atoms 2,3 while aggregated
-            ("prelude_regrow", vec![], vec![], Some(0x0f)),                                 // and gets them back
-            ("prelude_remove_all", vec![], { let mut v = vec![first[0].clone()]; v.extend(more.iter().cloned()); v }, None),   // total 0 while aggregating
-            ("prelude_add", vec![first[0].clone(), first[1].clone()], vec![], None),        // from nothing: simple again
+        enum P { Roas(Vec<String>, Vec<String>), Ent(u32), Aspa(&'static str), Router(u32), Check(&'static str) }
+        let script: Vec<(&str, P)> = vec![
+            ("prelude_add", P::Roas(first.clone(), vec![])),                                  // 7 > 5 (and > 2): start aggregating
+            ("prelude_remove", P::Roas(vec![], first[1..].to_vec())),                         // 1 left: stop aggregating under 3/5
+            ("prelude_add", P::Roas(more.clone(), vec![])),                                   // 6: aggregate again
+            ("prelude_aspa", P::Aspa("AS64514 => AS64600, AS64601")),
+            ("prelude_aspa", P::Aspa("AS64512 => AS64600")),
+            ("prelude_router_key", P::Router(64514)),
+            ("prelude_router_key", P::Router(64513)),
+            ("prelude_shrink", P::Ent(0x03)),                                                 // b loses atoms 2, 3 (AS64514, AS64515, 10.2/16, 10.3/16)
+            ("prelude_check", P::Check("after losing atoms 2 and 3")),
+            ("prelude_regrow", P::Ent(0x0f)),                                                 // and gets them back
+            ("prelude_check", P::Check("after regaining atoms 2 and 3")),
+            ("prelude_remove_all", P::Roas(vec![], { let mut v = vec![first[0].clone()]; v.extend(more.iter().cloned()); v })),   // total 0 while aggregating
+            ("prelude_add", P::Roas(vec![first[0].clone(), first[1].clone()], vec![])),       // from nothing: simple again
         ];
-        for (name, add, remove, ent) in script {
-            let op = json!({"op": name, "ca": "b", "add": add.len(), "remove": remove.len(), "entitlement": ent});
-            let r: Result<(), String> = h.observe(&op, |s| {
-                if let Some(m) = ent {
-                    s.update_child_resources("a", "b", atoms_to_resources(m)).map_err(|e| e.to_string())?;
+        for (name, step) in script {
+            if let P::Check(what) = &step { h.quiesce(); h.check(&json!({"point": "prelude", "what": what})); continue }
+            let op = json!({"op": name, "ca": "b"});
+            let r: Result<(), String> = h.observe(&op, |s| match &step {
+                P::Ent(m) => {
+                    s.update_child_resources("a", "b", atoms_to_resources(*m)).map_err(|e| e.to_string())?;
                     for _ in 0..2 { s.sync_parent("b", "a").map_err(|e| e.to_string())?; }
                     Ok(())
-                } else {
+                }
+                P::Roas(add, remove) => {
                     let a: Vec<&str> = add.iter().map(|x| x.as_str()).collect();
                     let r: Vec<&str> = remove.iter().map(|x| x.as_str()).collect();
                     s.routes_update("b", &a, &r).map_err(|e| e.to_string())
                 }
+                P::Aspa(d) => s.aspas_update("b", &[d], &[]).map_err(|e| e.to_string()),
+                P::Router(asn) => {
+                    let upd = BgpSecDefinitionUpdates { add: vec![BgpSecDefinition { asn: Asn::from_u32(*asn), csr: csrs[0].clone() }], remove: vec![] };
+                    s.krill.ca_manager().ca_bgpsec_definitions_update(ca_handle("b"), upd, &s.actor, &s.krill).map_err(|e| e.to_string())
+                }
+                P::Check(_) => Ok(()),
             });
             if r.is_ok() {
-                if let Some(m) = ent { st.ent.insert("b", m); }
-                let l = st.roas.entry("b").or_default();
-                l.retain(|x| !remove.contains(x)); l.extend(add.iter().cloned());
+                match &step {
+                    P::Ent(m) => { st.ent.insert("b", *m); }
+                    P::Roas(add, remove) => { let l = st.roas.entry("b").or_default(); l.retain(|x| !remove.contains(x)); l.extend(add.iter().cloned()); }
+                    _ => {}
+                }
             }
             { let mut o = out.lock().unwrap(); *o.op_hist.entry(name.to_string()).or_default() += 1;
               if let Err(e) = &r { *o.err_hist.entry(canon_err(e)).or_default() += 1; } }
